@@ -486,10 +486,11 @@ def _exists(mod: str) -> bool:
 
 
 def _reg(prop, jssp, fn, module, theorems, extra=()):
-    have = _exists(module)
+    modules = [module] if isinstance(module, str) else list(module)
+    have = all(_exists(m) for m in modules)
     ths = theorems if have else []
     register(Unit(prop, tag(jssp), (lambda ctx, _fn=fn, _j=jssp: _fn(ctx, _j)), drivers=["drv_fjsp"],
-                  lean_modules=[module] if have else [], theorems=ths,
+                  lean_modules=modules if have else [], theorems=ths,
                   assumptions=[MODEL_NOTE, WF_NOTE, COVER_NOTE, *extra] + ([] if ths else [NO_THM])))
 
 
@@ -508,7 +509,7 @@ for _j in (False, True):
                   "exactly one eligible machine with the exact duration, busy_until ≥ finish of every op on the machine, "
                   "no overlap per machine / per job, no assertion fired"),
           Theorem("Rl4co.Fjsp.time_monotone", "proved", "the clock never runs backwards")])
-    _reg("C02", _j, check_termination, "Rl4co.Props.C02.Fjsp",
+    _reg("C02", _j, check_termination, ["Rl4co.Props.C02.Fjsp", "Rl4co.Props.C18.FjspGenWF"],
          [Theorem(f"{_n}.mask_nonempty", "proved", "every reachable state, finished or not, offers an action (mask_no_ops on and off)"),
           Theorem(f"{_n}.done_stable", "proved", "a step on a finished row is the identity, so done is absorbing"),
           Theorem(f"{_n}.steps_le", "proved", "an unfinished mask-confined run has at most 2·#operations steps"),
@@ -516,23 +517,46 @@ for _j in (False, True):
                   "a finished run has exactly one scheduling step per operation, plus at most one wait per operation"),
           Theorem("Rl4co.Fjsp.loop_terminates", "proved",
                   "the `while step_complete` loop comes to rest within the model's fuel (M+1) and the code's assert never fires"),
-          Theorem("Rl4co.Fjsp.mask_of_done", "proved", "a finished row is offered exactly the wait action")])
+          Theorem("Rl4co.Fjsp.mask_of_done", "proved", "a finished row is offered exactly the wait action"),
+          Theorem("Rl4co.Fjsp.gen_wf_jssp" if _j else "Rl4co.Fjsp.gen_wf_fjsp", "proved",
+                  "generator post-conditions (Gen.Sched: op_index, *_operation_eligible) ⇒ WF: generated instances satisfy the "
+                  "hypothesis of every environment theorem"),
+          Theorem("Rl4co.Fjsp.read_wf_jssp" if _j else "Rl4co.Fjsp.read_wf_fjsp", "proved",
+                  "an instance written by the writer and read back by the repo's reader (Gen.Persist *_read_write) is WF"),
+          Theorem("Rl4co.Fjsp.gen_fjsp_solvable", "proved",
+                  "the chain spelled out: on a generated FJSP instance every reachable state offers an action and no assert fires")])
     _reg("C03", _j, check_reward, "Rl4co.Props.C03.Fjsp",
          [Theorem(f"{_n}.reward_eq_makespan", "proved", "reward = −Spec.makespan of the recorded schedule, in every state"),
           Theorem("Rl4co.Fjsp.neg_reward_is_latest_completion", "proved",
                   "−reward bounds every real operation's completion time and is attained")])
-    _reg("C04", _j, check_batch, "Rl4co.Props.C04.Fjsp",
+    _reg("C04", _j, check_batch, ["Rl4co.Props.C04.Fjsp", "Rl4co.Props.C04.FjspPadding", "Rl4co.Props.C04.FjspEpisode"],
          [Theorem(f"{_n}.stepBatch_eq_map_step", "proved",
                   "the batched _step (no_op.any() branch, release applied to all rows, while step_complete.any()) equals the "
                   "row-wise solo step on rows in reachable states of arbitrary WF instances"),
           Theorem("Rl4co.Fjsp.batchedWhile_eq_map_soloWhile", "proved", "generic: batched masked while-loop = map of per-row while-loops"),
           Theorem("Rl4co.Fjsp.pad_noop", "proved", "stepping a finished row is offered only as the wait action and changes nothing"),
           Theorem("Rl4co.Fjsp.repad_step", "proved", "mask/step/reset do not depend on the number of padded columns or on pad_mask"),
-          Theorem("Rl4co.Fjsp.repad_reward", "proved", "the reward is the same for any padding width of a WF instance")],
+          Theorem("Rl4co.Fjsp.repad_reward", "proved", "the reward is the same for any padding width of a WF instance"),
+          Theorem("Rl4co.Fjsp.revar_run", "proved",
+                  "the CONTENT of padded columns is irrelevant: an instance and a variant with other width / pad_mask / processing "
+                  "times outside the job ranges run in lock step (same masks, clock, done, schedule)"),
+          Theorem("Rl4co.Fjsp.revar_reward", "proved", "… and have the same reward when both are WF"),
+          Theorem("Rl4co.Fjsp.runBatch_eq_runRows", "proved",
+                  "∀ batch ∀ step ∀ row: a whole mask-confined batched episode equals stepping every row alone")],
          ["batched rows are compared with the per-instance model, with the batched model (stepBatch) and with a real solo re-run "
           "(with and without the padded columns)"])
-    _reg("C05", _j, check_completeness, "Rl4co.Props.C05.Fjsp",
-         [Theorem(f"{_n}.schedule_reachable", "partial",
+    _reg("C05", _j, check_completeness, ["Rl4co.Props.C05.Fjsp", "Rl4co.Props.C05.FjspClass", "Rl4co.Props.C05.FjspOptimum"],
+         [Theorem(f"{_n}.optimum_reachable", "proved",
+                  "mask_no_ops=False, unconditional: a best makespan reachable through the mask exists and equals the minimum "
+                  "makespan over ALL valid schedules (left-shift built by the environment: Fjsp.dominating_run)"),
+          Theorem(f"{_n}.reachable_iff_wait_allowed", "proved",
+                  "mask_no_ops=False: a schedule is reachable ⇔ it is valid and event-aligned"),
+          Theorem(f"{_n}.reachable_iff_no_wait", "proved",
+                  "mask_no_ops=True: a schedule is reachable ⇔ it is valid, event-aligned and non-delay"),
+          Theorem("Rl4co.Fjsp.reachable_nondelay", "proved", "mask_no_ops=True: every finished episode yields a non-delay schedule"),
+          Theorem("Rl4co.Fjsp.best_reachable_eq_optimum", "proved",
+                  "mask_no_ops=False: r is the least reachable makespan ⇔ r is the least makespan of a valid schedule"),
+          Theorem(f"{_n}.schedule_reachable", "partial",
                   "mask_no_ops=False: every valid schedule whose operations start at event times (every semi-active one) is "
                   "reproduced exactly by a mask-confined finished episode with reward −makespan"),
           Theorem(f"{_n}.nondelay_schedule_reachable", "partial",
